@@ -62,6 +62,34 @@ def basis_covariance(inp):
                 bad.append({'spectrum': spectrum, 'unique': unique, 'max_deviation_from_covariance': err})
     return {'violates': bool(bad), 'detail': bad}
 
+def basis_covariance_pt(inp):
+    """PT-TEMPO + compute_dynamics: simulating (V H V^+, V O V^+, V rho0 V^+) must give V rho(t) V^+ for a generic COMPLEX unitary V"""
+    import oqupy
+    rng = np.random.default_rng(33)
+    corr = oqupy.PowerLawSD(alpha=0.15, zeta=1, cutoff=3.0, cutoff_type='exponential', temperature=0.2)
+    par = oqupy.TempoParameters(dt=0.15, dkmax=3, epsrel=1e-8)
+    bad = []
+    for spectrum in ([0.5, -0.5], [1.0, 0.3, -0.4]):
+        d = len(spectrum)
+        O = np.diag(spectrum)
+        h = rng.normal(size=(d, d)) + 1j * rng.normal(size=(d, d))
+        H = (h + h.conj().T) / 4
+        a = rng.normal(size=(d, d)) + 1j * rng.normal(size=(d, d))
+        rho0 = a @ a.conj().T
+        rho0 /= np.trace(rho0)
+        V = _haar(d, rng)
+
+        def run(Hs, Os, r0):
+            pt = oqupy.PtTempo(oqupy.Bath((Os + Os.conj().T) / 2, corr), 0.0, 0.6, par).get_process_tensor(progress_type='silent')
+            return oqupy.compute_dynamics(oqupy.System(Hs), initial_state=r0, process_tensor=pt, progress_type='silent').states
+        ref = run(H, O, rho0)
+        rot = run(V @ H @ V.conj().T, V @ O @ V.conj().T, V @ rho0 @ V.conj().T)
+        err = max(float(np.abs(r - V @ s @ V.conj().T).max()) for r, s in zip(rot, ref))
+        if err > 1e-6:
+            bad.append({'spectrum': spectrum, 'max_deviation_from_covariance': err})
+    return {'violates': bool(bad), 'detail': bad}
+
+
 
 # thorough tier (bounded native sweeps): (function, inputs, obligation of the open finding it reproduces or None)
-THOROUGH = [('bath_eigensystem', {}, None), ('basis_covariance', {}, None)]
+THOROUGH = [('bath_eigensystem', {}, None), ('basis_covariance', {}, None), ('basis_covariance_pt', {}, None)]
